@@ -170,13 +170,182 @@ class C16(Check):
             ps = [Encode('encode, 4 tokens', 4, required=req), Encode('encode, 5 tokens', 5, required=req), Encode('encode, 1 token', 1), Order()]
         else:
             ps = [Encode('encode, 5 tokens', 5, required=req), Encode('encode, 6 tokens', 6, required=req), Encode('encode, 7 tokens', 7), Order()]
+        if not hasattr(self, 'll'): self.ll = LangLex(self)
+        self.server_stubs = install_server_stubs(self.I)
+        if not hasattr(self, 'pkit'): self.pkit = ProjectKit(self, log=self.log)
+        all_ds = [DS.D_RECORDS, DS.D_TREE, DS.D_GENERIC, DS.D_COMB, DS.D_ZOO, DS.D_SEM, DS.D_SYN, DS.MUT_DESIGN]
+        ds = all_ds if self.tier != 'quick' else [all_ds[self.seed % 8], all_ds[(self.seed + 5) % 8]]
+        ps.append(TokensOnDesigns('the server on analysed designs: semanticTokens/full and /range', ds, required=('compared', 'tokens present', 'proper subset requested')))
         self._parts = ps
         return ps
 
     def assumptions(self):
         return ['input tokens are sorted by start position and have start <= end (established by map_and_sort / the tokenizer; distinctness of reference positions is NOT assumed and not claimed)',
-                'that reference positions are single identifiers inside the document, the classification and the document-symbol hierarchy need the analyser and are outside this check',
+                'server part: the listed designs (valid, semantically and syntactically broken) with std; environment stubs: a Url is its path, path normalisers are the identity; the document-symbol hierarchy and the classification of tokens are outside',
                 'the semantic token cache invalidation (per-URI state of the server) is outside this check']
+
+
+
+# ------------------------------------------------------------------------------------------------ the server on analysed designs
+from .queries import DesignPart, FileTexts, load_design, choose as _choose, DS, ProjectKit, LangLex, obs_show, Infeasible
+from .c09 import install_stubs as install_server_stubs, url_of
+from ..models import HMap, py_str
+import re as _re
+
+TOKEN_TEXT = _re.compile(r"[A-Za-z][A-Za-z0-9_]*|\\[^\\]*\\|'.'|\"[^\"]*\"|\*\*|<=|>=|/=|:=|\?\?|\?=|\?/=|\?<=|\?>=|\?<|\?>|[-+*/&=<>]")
+
+
+def make_server(chk, proj_agg):
+    info = chk.I.crates[LS]
+    F = info.structs['VHDLServer']; srv = Agg('VHDLServer', [None] * len(F))
+    S = info.structs['VHDLServerSettings']; st = Agg('VHDLServerSettings', [None] * len(S))
+    st.fields[S.index('no_lint')] = False; st.fields[S.index('silent')] = True
+    st.fields[S.index('non_project_file_handling')] = chk.I.enum_value(LS, 'NonProjectFileHandling', 'Ignore') if 'NonProjectFileHandling' in info.enums else None
+    srv.fields[F.index('rpc')] = Agg('SharedRpcChannel', [None]); srv.fields[F.index('settings')] = st
+    srv.fields[F.index('use_external_config')] = False; srv.fields[F.index('project')] = proj_agg
+    srv.fields[F.index('diagnostic_cache')] = HMap(); srv.fields[F.index('semantic_token_cache')] = HMap()
+    srv.fields[F.index('init_params')] = Agg('Option', [], 'None', 0); srv.fields[F.index('config_file')] = Agg('Option', [], 'None', 0)
+    srv.fields[F.index('severity_map')] = None; srv.fields[F.index('case_transform')] = Agg('Option', [], 'None', 0)
+    srv.fields[F.index('string_matcher')] = Agg('SkimMatcherV2', [])
+    return srv
+
+
+def decode(data):
+    """[(line, start, length, type, modifiers)] of a delta-encoded token array (concrete)"""
+    out = []; line = 0; start = 0
+    for t in data:
+        dl, ds, ln, ty, mo = [x.e for x in t.fields]
+        line += dl; start = start + ds if dl == 0 else ds
+        out.append((line, start, ln, ty, mo))
+    return out
+
+
+class TokensOnDesigns(DesignPart):
+    """semanticTokens/full and /range of the real server on analysed designs"""
+
+    def __init__(self, name, designs, required=(), time_cap=None):
+        self.name, self.designs = name, designs
+        self.required_classes = required; self.time_cap = time_cap
+        self.bounds = dict(designs=[d['name'] for d in designs], request='full, then a range request with four unconstrained u32 (symbolic)',
+                           decoded='strictly increasing, non-overlapping, single line, inside the text, each exactly one identifier / operator symbol / character literal; range answer == tokens of the full answer on the requested lines')
+
+    def run(self, chk, ctx, inp, verify=True):
+        I = chk.I
+        D = self.designs[_choose(ctx, inp, 'design', len(self.designs))]
+        pr = self.project(chk, ctx, inp, D)
+        fi = _choose(ctx, inp, 'file', len(D['files'])); fn = D['files'][fi][1]; fname = '/p/' + fn
+        srv = make_server(chk, pr.agg)
+        tdi = Agg('TextDocumentIdentifier', [url_of(fname)])
+        wd = Agg('WorkDoneProgressParams', [Agg('Option', [], 'None', 0)]); prp = Agg('PartialResultParams', [Agg('Option', [], 'None', 0)])
+        try:
+            full = I.call(ctx, LS, 'VHDLServer::semantic_tokens_full', [ValRef(srv), ValRef(Agg('SemanticTokensParams', [wd, prp, tdi]))])
+        except Panic as p:
+            raise Violation(f'semanticTokens/full panics on {fn}: ' + str(p), 'panic')
+        if full.variant == 'None': raise Violation(f'no semantic tokens for the project file {fn}', 'none')
+        toks = decode(seq_items(deref(full.fields[0]).fields[0].fields[1]))
+        if not verify: return toks
+        lines = D['files'][fi][2].split('\n')
+        prev = None
+        for (ln, st, le, ty, mo) in toks:
+            ctx.obligations += 1
+            if ln >= len(lines) or st + le > len(lines[ln]) or le == 0:
+                raise Violation(f'{fn}: token (line {ln}, start {st}, length {le}) is not inside the document', 'outside')
+            if prev is not None and not ((ln, st) >= (prev[0], prev[1] + prev[2]) and (ln, st) > (prev[0], prev[1])):
+                raise Violation(f'{fn}: tokens are not strictly increasing / overlap: {prev[:3]} then {(ln, st, le)}', 'order')
+            text = lines[ln][st:st + le]
+            if not TOKEN_TEXT.fullmatch(text):
+                raise Violation(f'{fn}: token (line {ln}, start {st}, length {le}) covers {text!r}, which is not exactly one identifier, operator symbol or character literal', 'text')
+            prev = (ln, st, le)
+        ctx.cover('full answer decoded')
+        if toks: ctx.cover('tokens present')
+        # range request
+        r = [inp.bv(k, 32) for k in ('rsl', 'rsc', 'rel', 'rec')]
+        rng = Agg('Range', [Agg('Position', [r[0], r[1]]), Agg('Position', [r[2], r[3]])])
+        try:
+            part = I.call(ctx, LS, 'VHDLServer::semantic_tokens_range', [ValRef(srv), ValRef(Agg('SemanticTokensRangeParams', [wd, prp, tdi, rng]))])
+        except Panic as p:
+            ctx.model(); raise Violation(f'semanticTokens/range panics on {fn}: ' + str(p), 'panic')
+        got = decode(seq_items(deref(part.fields[0]).fields[0].fields[1]))
+        # which tokens of the full answer touch the requested lines: decided per token (the solver splits the range space accordingly)
+        want = []
+        for t in toks:
+            touch = ctx.branch(z3.And(z3.ULE(r[0].e, t[0]), z3.UGE(r[2].e, t[0])))
+            if touch: want.append(t)
+        ctx.obligations += 1
+        if got != want:
+            ctx.model(); raise Violation(f'{fn}: the range request returns {len(got)} tokens, the full answer has {len(want)} on the requested lines; first difference: {[x for x in got if x not in want][:2]} / {[x for x in want if x not in got][:2]}', 'range')
+        ctx.cover('compared')
+        if want and len(want) < len(toks): ctx.cover('proper subset requested')
+        return None
+
+    def harness(self, chk):
+        self.bases(chk)
+        def h(ctx):
+            ctx.step_limit = max(ctx.step_limit, 60_000_000)
+            self.run(chk, ctx, SymInputs(ctx))
+        return h
+
+    def replay_case(self, chk, w, v):
+        from .c09 import os as _os
+        D = self.designs[w.get('design', 0) % len(self.designs)]; fn = D['files'][w.get('file', 0) % len(D['files'])][1]
+        full, part = lsp_tokens(D, fn, [w.get(k, 0) for k in ('rsl', 'rsc', 'rel', 'rec')])
+        if full is None: return True
+        lines = dict((f, t) for _, f, t in D['files'])[fn].split('\n')
+        prev = None
+        for (ln, st, le, ty, mo) in full:
+            if ln >= len(lines) or st + le > len(lines[ln]) or le == 0 or not TOKEN_TEXT.fullmatch(lines[ln][st:st + le]): return True
+            if prev is not None and not ((ln, st) >= (prev[0], prev[1] + prev[2])): return True
+            prev = (ln, st, le)
+        rsl, rel = w.get('rsl', 0), w.get('rel', 0)
+        return part != [t for t in full if rsl <= t[0] <= rel]
+
+    def translator_validation(self, chk):
+        self.bases(chk)
+        rng = chk.rng; bad = []; n = 0
+        for di, D in enumerate(self.designs):
+            w = {'design': di, 'file': rng.randrange(len(D['files'])), 'rsl': rng.randrange(5), 'rsc': 0, 'rel': rng.randrange(5, 40), 'rec': 3}
+            ctx = Ctx(); ctx.step_limit = 10 ** 9
+            try: mine = self.run(chk, ctx, ConcInputs(ctx, w), verify=False)
+            except Violation as vv: mine = ('violation', str(vv))
+            fn = D['files'][w['file'] % len(D['files'])][1]
+            theirs, _ = lsp_tokens(D, fn, None); n += 1
+            if mine != theirs: bad.append({'case': w, 'interpreter': [list(x) for x in mine][:8] if isinstance(mine, list) else mine, 'vhdl_ls over stdio': (theirs or [])[:8]})
+        return n, bad
+
+
+def lsp_tokens(D, fn, rng4):
+    """the real vhdl_ls binary over stdio: decoded full answer and (optionally) range answer"""
+    import tempfile, shutil, os
+    from .c14 import LspClient, lsp_binary
+    from .. import build
+    os.makedirs(os.path.join(build.BUILD, 'scratch'), exist_ok=True)
+    root = tempfile.mkdtemp(prefix='c16-', dir=os.path.join(build.BUILD, 'scratch'))
+    try:
+        libs = {}
+        for lib, f, t in D['files']:
+            libs.setdefault(lib, []).append(f)
+            with open(os.path.join(root, f), 'w', encoding='latin-1') as fh: fh.write(t)
+        with open(os.path.join(root, 'vhdl_ls.toml'), 'w') as fh:
+            fh.write('[libraries]\n' + ''.join(f'{k}.files = [{", ".join(repr(x) for x in v)}]\n' for k, v in libs.items()))
+        c = LspClient(lsp_binary(), root)
+        try:
+            doc = {'textDocument': {'uri': 'file://' + os.path.join(root, fn)}}
+            res = c.request('textDocument/semanticTokens/full', doc).get('result')
+            part = None
+            if rng4 is not None:
+                part = c.request('textDocument/semanticTokens/range', dict(doc, range={'start': {'line': rng4[0], 'character': rng4[1]}, 'end': {'line': rng4[2], 'character': rng4[3]}})).get('result')
+        finally: c.stop()
+        def dec(r):
+            if r is None: return None
+            d = r['data']; out = []; line = 0; start = 0
+            for k in range(0, len(d), 5):
+                dl, ds, ln, ty, mo = d[k:k + 5]
+                line += dl; start = start + ds if dl == 0 else ds
+                out.append((line, start, ln, ty, mo))
+            return out
+        return dec(res), dec(part)
+    finally:
+        shutil.rmtree(root, ignore_errors=True)
 
 
 if __name__ == '__main__':
